@@ -21,7 +21,7 @@ from harness import common
 GEN_MODULES = ['grid']
 MODEL_TARGETS = ['model/M_Grid.vo', 'model/M_GridSF.vo']
 PROOF_TARGETS = ['proofs/P_Grid.vo', 'proofs/P_GridInterp.vo', 'proofs/P_GridSF.vo', 'proofs/P_GridCall.vo',
-                 'proofs/P_GridLocal.vo', 'proofs/P_GridIrr.vo', 'proofs/P_GridExt.vo']
+                 'proofs/P_GridLocal.vo', 'proofs/P_GridIrr.vo', 'proofs/P_GridExt.vo', 'proofs/P_GridCache.vo']
 LEVEL = 'proof'
 RULE = ('regular grids: origin in {0, few-decimal, full-precision random, large (58000, 1e5..)} x spacing '
         'in 1e-3..1e3 (decimal and dyadic) x 2..200 points x {from_range, explicit delta, delta=None} x '
@@ -803,6 +803,21 @@ def run(ctx):
             run_specfloat(ctx, small)
         except RuntimeError as ex:
             ctx.broken.append({'kind': 'model-eval', 'error': str(ex)[:1500]})
+    if ctx.thorough() and not ctx.broken:
+        coqchk(ctx)
+
+
+def coqchk(ctx):
+    """thorough tier: re-check the compiled property file and everything it depends on with the
+    independent checker"""
+    cmd = ['timeout', '1500', 'coqchk', '-o', '-silent', '-Q', common.COQ, 'Sky', 'Sky.props.Prop_C15']
+    for attempt in (1, 2):
+        rc, out, err = common.sh(cmd, timeout=1600)
+        if rc == 0:
+            ctx.notes.append('coqchk -o Sky.props.Prop_C15: ok')
+            ctx.count('coqchk_ok')
+            return
+    ctx.broken.append({'kind': 'coqchk', 'error': (out + err)[-1500:]})
 
 
 def replay(ctx, rp):
